@@ -83,9 +83,9 @@ def check(fb, ctx):
     # ---- SIZE
     n_size = 0
     FIXED32 = re.compile(r"call:to_bytes\(call:private\(")
-    for b in ext:
-        L = sigs.Layout(fb, b)
-        for c in fb.calls(b):
+    for b, owner in [(b_, o_) for b_ in ext for o_ in [b_] + mirq.created_closures(fb, b_)]:     # the copy may sit in a closure of the extern fn
+        L = sigs.Layout(fb, owner)
+        for c in fb.calls(owner):
             if c.indirect or not (c.rpath or "").endswith("<impl [T]>::copy_from_slice"):
                 continue
             dst, src = L.operand(c.args[0]), L.operand(c.args[1])
